@@ -29,6 +29,13 @@ structure Ctx where
   d : Nat
   progA : Program
   progB : Program
+  /-- the cells of run B below `fz` outside `D`, the cells of run A below `fzA` that no cell of `D`
+      corresponds to, and the arrays / objects below `a0` / `o0` are never touched: they stay as
+      in these snapshots -/
+  fz : Nat := 0
+  fzA : Nat := 0
+  snapA : Heap := Heap.empty
+  snapB : Heap := Heap.empty
 
 /-! ### renaming of values -/
 
